@@ -10,6 +10,7 @@ import (
 	"math"
 	"math/rand"
 	"reflect"
+	"sort"
 	"strconv"
 	"strings"
 	"time"
@@ -22,7 +23,7 @@ import (
 const coerceSDL = `
 type Query { x: Int }
 enum T30 { E1 E2 E3 }
-input T41 { a1: Int a2: T30 }
+input T41 { a1: Int a2: T30 a3: String = "s1" }
 input T40 { a1: Int! a2: String = "s1" a3: [Int!] a4: T41 a5: Boolean }
 `
 
@@ -444,7 +445,7 @@ func coerceExec(input sx.S) (obs sx.S) {
 
 const coerceReqSDL = `
 enum T30 { E1 E2 E3 }
-input T41 { a1: Int a2: T30 }
+input T41 { a1: Int a2: T30 a3: String = "s1" }
 input T40 { a1: Int! a2: String = "s1" a3: [Int!] a4: T41 a5: Boolean }
 `
 
@@ -578,6 +579,17 @@ func (r *reqRoot) Resolve(f *ggql.Field, args map[string]interface{}) (interface
 	return nil, nil
 }
 
+func sortedTokens(s string) string {
+	var toks []string
+	for _, t := range c03TokRe.FindAllString(s, -1) {
+		if strings.TrimSpace(t) != "" && t != "," {
+			toks = append(toks, t)
+		}
+	}
+	sort.Strings(toks)
+	return strings.Join(toks, " ")
+}
+
 func coerceReqExec(l []sx.S) sx.S {
 	rr := &reqRoot{}
 	root := ggql.NewRoot(rr)
@@ -622,6 +634,57 @@ func coerceReqExec(l []sx.S) sx.S {
 		// the caller's value takes precedence over the default of the variable
 		res = root.ResolveString("query($u: Int = 1, $v: "+tt+" = "+decoyDefault(l[2])+") { f(a: $v) }", "",
 			map[string]interface{}{"v": coerceGoValue(l[3])})
+	case "reqrl", "reqr0", "reqr1", "reqr2", "reqr3":
+		// C11: the request is parsed once and resolved twice; the second call hands over what the first
+		// did and the printed form of the executable is what it was before the first call
+		lit, ok := coerceLitText(l[3])
+		if !ok {
+			return sx.L("not-a-literal")
+		}
+		var vars map[string]interface{}
+		switch dir {
+		case "reqr1":
+			vars = map[string]interface{}{}
+		case "reqr2":
+			vars = map[string]interface{}{"u": 3}
+		case "reqr3":
+			vars = map[string]interface{}{"u": 3, "v": nil}
+		}
+		text := "query($u: Int, $v: " + tt + " = " + lit + ") { f(a: $v) }"
+		if dir == "reqrl" {
+			text = "{ f(a: " + lit + ") }"
+		}
+		exe, err := root.ParseExecutableString(text)
+		if err != nil || exe == nil {
+			return sx.L("err")
+		}
+		before := exe.String()
+		one := func() sx.S {
+			rr.called, rr.arg = false, nil
+			r1, err := root.ResolveExecutable(exe, "", vars)
+			if _, has := r1["errors"]; has || err != nil {
+				if rr.called {
+					return sx.L("err-and-called")
+				}
+				return sx.L("err")
+			}
+			if !rr.called {
+				return sx.L("no-error-no-call")
+			}
+			return sx.L("ok", canonOut(rr.arg, l[3]))
+		}
+		first := one()
+		mid := exe.String()
+		second := one()
+		// object literals print their fields in no fixed order: the printed forms are compared as the
+		// sorted lists of their tokens
+		if after := exe.String(); sortedTokens(after) != sortedTokens(before) || sortedTokens(mid) != sortedTokens(before) {
+			return sx.L("reuse-differs", "values-in-the-parsed-request-changed-by-resolving", sx.Hex(before), sx.Hex(after))
+		}
+		if sx.String(first) != sx.String(second) {
+			return sx.L("reuse-differs", "second-call-differs-from-the-first", first, second)
+		}
+		return first
 	default:
 		return sx.L("bad-dir")
 	}
@@ -734,7 +797,7 @@ func leafValues() []sx.S {
 	return out
 }
 
-var input41 = "(input 41 (fields (f 1 (sc Int) -) (f 2 (enum (1 2 3)) -)))"
+var input41 = "(input 41 (fields (f 1 (sc Int) -) (f 2 (enum (1 2 3)) -) (f 3 (sc String) dflt)))"
 var input40 = "(input 40 (fields (f 1 (nn (sc Int)) -) (f 2 (sc String) dflt) (f 3 (l (nn (sc Int))) -) (f 4 " + input41 + " -) (f 5 (sc Boolean) -)))"
 
 func mustParse(s string) sx.S {
@@ -757,6 +820,15 @@ func coerceGen(dir string) func(r *rand.Rand, tier string) []Case {
 			n++
 			cases = append(cases, Case{ID: fmt.Sprintf("k%d", n), Input: sx.L("coerce", dir, t, v),
 				Tags: append(tags, "nontrivial"), Human: sx.String(t) + " <- " + sx.String(v)})
+			if dir == "reuse" {
+				cases = cases[:len(cases)-1]
+				if _, ok := coerceLitText(v); ok && sdlType(t) {
+					d := []string{"reqrl", "reqr0", "reqr1", "reqr2", "reqr3", "reqr0"}[n%6]
+					cases = append(cases, Case{ID: fmt.Sprintf("q%d", n), Input: sx.L("coerce", d, t, v),
+						Tags:  append(append([]string{}, tags...), "nontrivial", "parsed-once-resolved-twice"),
+						Human: "f(a: " + coerceTypeText(t) + ") given " + sx.String(v) + " as a literal / variable default (" + d + "), parsed once, resolved twice"})
+				}
+			}
 			if dir == "in" && n%reqEvery == 0 && sdlType(t) {
 				if lit, ok := coerceLitText(v); ok {
 					cases = append(cases, Case{ID: fmt.Sprintf("k%dl", n), Input: sx.L("coerce", "reql", t, v),
@@ -787,7 +859,7 @@ func coerceGen(dir string) func(r *rand.Rand, tier string) []Case {
 		for _, t := range types {
 			for _, v := range leaves {
 				add(t, v, "leaf-sweep")
-				if dir == "in" {
+				if dir == "in" || dir == "reuse" {
 					add(sx.L("nn", t), v, "leaf-sweep", "non-null")
 				}
 			}
@@ -1019,11 +1091,12 @@ func coerceValid(input sx.S) bool {
 		switch {
 		case !sdlType(l[2]):
 			return false
-		case (d == "reql" || strings.HasPrefix(d, "reqd")) && !ok:
+		case (d == "reql" || strings.HasPrefix(d, "reqd") || strings.HasPrefix(d, "reqr")) && !ok:
 			return false
 		case d == "reqp" && isAtom && vs == "nil":
 			return false
-		case d != "reql" && d != "reqv" && d != "reqp" && d != "reqd0" && d != "reqd1" && d != "reqd2" && d != "reqd3":
+		case d != "reql" && d != "reqv" && d != "reqp" && d != "reqd0" && d != "reqd1" && d != "reqd2" && d != "reqd3" &&
+			d != "reqrl" && d != "reqr0" && d != "reqr1" && d != "reqr2" && d != "reqr3":
 			return false
 		}
 	}
